@@ -337,6 +337,27 @@ def check_search(m, f, schema, res_wl, res_bound):
                                                   'zero-weight cycles)' % op)
                 marker = form
                 break
+        if fals and kind == 'relax':
+            # the store falsifies `cand < dist[v]` only if the value stored is the value compared: a test evaluated in a
+            # wider floating type than the stored distances can succeed again after the candidate has been rounded
+            rank = {'float': 0, 'double': 1, 'long double': 2}
+            elem = s.arrays[arr].get('ctype', '')
+            elem = elem[elem.index('<') + 1:].split(',')[0].strip().rstrip('>') if '<' in elem else ''
+            wide = None
+            for n in f.nodes:
+                if n['k'] == 'BinaryOperator' and n.get('op') in ('<', '>', '<=', '>=') and strip_conv(s.T(n['i'])) == tt_:
+                    for c in n['c']:
+                        ct = f.nodes[c].get('t', '')
+                        if ct in rank and elem in rank and rank[ct] > rank[elem]:
+                            wide = (n['i'], ct)
+            if wide:
+                marker = form
+                verdict = ('bound-only', wide[0],
+                           'the improvement test is evaluated in `%s` while the distances are stored as `%s`: after the candidate '
+                           'has been rounded on storage the stored distance can still compare greater than an equally long route, '
+                           'so equal-cost rediscoveries re-insert the vertex; the number of scans is then bounded by the number '
+                           'of tied routes, not by the size of the graph' % (wide[1], elem), fals[0], kind)
+                break
         if fals:
             marker = form
             verdict = ('holds', fals[0], kind)
@@ -357,6 +378,12 @@ def check_search(m, f, schema, res_wl, res_bound):
             # guarded by first discovery / `<=`): the deviation costs work (C19), not correctness
             res.ok(dict(function=disp, schema=schema, check='insert-once', note='not required for the results; see F-WL.bound'))
             continue
+        if verdict is not None and verdict[0] == 'bound-only':
+            if res is res_wl:
+                res.ok(dict(function=disp, schema=schema, check='insert-once', note='mixed precision costs work, not results; see F-WL.bound'))
+            else:
+                fail(res, 'insert-once', verdict[1], verdict[2])
+            continue
         if verdict is None:
             res.broken('F-WL: the insertion guard of %s at %s is not one of the recognised marker tests (!mark[v], '
                        'dist[v]==sentinel, cand<dist[v])' % (disp, f.nloc(ins['i'])))
@@ -365,6 +392,8 @@ def check_search(m, f, schema, res_wl, res_bound):
                         marker=s.arrays[marker[1]]['name'], falsified_at=f.nloc(verdict[1])), fn=disp)
         else:
             fail(res, 'insert-once', verdict[1], verdict[2])
+    if verdict is not None and verdict[0] == 'bound-only':
+        verdict = ('holds', verdict[3], verdict[4])
     if verdict is None or (verdict[0] != 'holds' and schema != 'S-BFS-ALL'):
         return s
     s.marker = marker
